@@ -2,6 +2,7 @@ package api
 
 import (
 	"fmt"
+	"math"
 	"slices"
 
 	beacon "github.com/oasisprotocol/oasis-core/go/beacon/api"
@@ -50,7 +51,17 @@ func (c *ConsensusParameterChanges) SanityCheck() error {
 // SanityCheckProposals sanity checks proposals.
 func SanityCheckProposals(proposals []*Proposal, epoch beacon.EpochTime, governanceDeposit *quantity.Quantity) error {
 	activeProposalDeposits := quantity.NewFromUint64(0)
+	seenIDs := make(map[uint64]struct{})
 	for _, p := range proposals {
+		// Proposal identifiers must be unique and leave room for the next identifier, otherwise a
+		// newly submitted proposal would replace an existing one.
+		if p.ID == math.MaxUint64 {
+			return fmt.Errorf("proposal %v: proposal identifier out of range", p.ID)
+		}
+		if _, ok := seenIDs[p.ID]; ok {
+			return fmt.Errorf("proposal %v: duplicate proposal identifier", p.ID)
+		}
+		seenIDs[p.ID] = struct{}{}
 		if p.CreatedAt > epoch {
 			return fmt.Errorf("proposal %v: with created epoch in the future", p.ID)
 		}
